@@ -41,6 +41,14 @@ ORDNUM_CLASSES = ["Discretizer", "QualitativeDiscretizer", "BinaryCarver", "Cont
 CATS = ["a", "b", "c", "d"]
 
 
+DEV_TARGET_VARIANTS = {
+    "BinaryCarver": [("n_classes", "one_class@dev"), ("n_classes", "three_classes@dev"),
+                     ("n_classes", "two_not01@dev"), ("y_str", "str01@dev")],
+    "ContinuousCarver": [("y_str", "cell@dev")],
+    "MulticlassCarver": [("n_classes", "missing_class@dev"), ("n_classes", "extra_class@dev")],
+}
+
+
 def has_quant(cls):
     return bool(FEATS[cls][0])
 
@@ -101,6 +109,11 @@ def all_triples(cls):
                 res.append((ep, "y_str", "str01"))
             if cls == "ContinuousCarver":
                 res.append((ep, "y_str", "cell"))
+            # the same on the development sample
+            for v in DEV_TARGET_VARIANTS[cls]:
+                res.append((ep,) + v)
+            res.append((ep, "index_mismatch", "shorter@dev"))
+            res.append((ep, "y_not_series", "none@dev"))     # X_dev given without y_dev
     if carver or cls == "Discretizer":
         res.append(("init", "feature_overlap", "quant_quali"))
         res.append(("init", "feature_overlap", "quant_ordinal"))
@@ -405,6 +418,13 @@ def inject(case, obj, X, y, fitted):
             vals[pos] = 2
         elif var == "two_not01":
             vals = [v + 1 for v in vals]
+        elif var == "missing_class":
+            cl = sorted(set(vals), key=str)
+            gone = cl[min(len(cl) - 1, int(case["pos2"] * len(cl)))]
+            keep = [c for c in cl if c != gone][0]
+            vals = [keep if v == gone else v for v in vals]
+        elif var == "extra_class":
+            vals[pos] = "zz" if isinstance(vals[0], str) else 99
         import pandas as pd
         return X, pd.Series(vals, index=y.index), None
     if mal == "y_str":
@@ -710,7 +730,7 @@ class C19(Prop):
         import os
         cs = []
         d = os.path.join(C.VERIF, "corpus", "findings")
-        for fn in sorted(glob.glob(os.path.join(d, "O38_*.json"))) + sorted(glob.glob(os.path.join(d, "C19-*.json"))):
+        for fn in sorted(glob.glob(os.path.join(d, "O[0-9][0-9]_c19_*.json"))) + sorted(glob.glob(os.path.join(d, "C19-*.json"))):
             try:
                 cs.append(json.load(open(fn))["case"])
             except (OSError, ValueError, KeyError):
@@ -791,7 +811,8 @@ class C19(Prop):
              "dev_given": case["dev"] is not None, "xdev_is_frame": True, "ydev_is_series": True,
              "ydev_has_nan": False, "dev_index_matches": True, "dev_columns_present": True,
              "n_classes": 2, "y_is_01": True, "y_has_str": False, "y_all_str": False, "feature_overlap": False,
-             "quant_has_str": False, "ordinal_unknown_value": False, "sort_by_ok": True, "y_given": True}
+             "quant_has_str": False, "ordinal_unknown_value": False, "sort_by_ok": True, "y_given": True,
+             "ydev_given": True, "dev_index_same_len": True, "ydev_classes_ok": True, "ydev_has_str": False}
         tgt = {"ContinuousCarver": "continuous", "MulticlassCarver": "multiclass"}.get(case["cls"], "binary")
         if tgt == "continuous":
             f["n_classes"], f["y_is_01"] = 9, False
@@ -808,7 +829,9 @@ class C19(Prop):
                 f["x_is_frame"] = False
                 f["x_is_none"] = v == "none"
         elif mal == "y_not_series":
-            if dev:
+            if dev and v == "none":
+                f["ydev_given"] = False
+            elif dev:
                 f["ydev_is_series"] = False
             else:
                 f["y_is_series"] = False
@@ -820,9 +843,15 @@ class C19(Prop):
         elif mal == "index_mismatch":
             f[p + "index_matches"] = False
             if v == "shorter":
-                f["index_same_len"] = False
+                f[p + "index_same_len"] = False
         elif mal == "missing_col":
             f[p + "columns_present"] = False
+        elif mal == "n_classes" and dev:
+            f["ydev_classes_ok"] = False
+        elif mal == "y_str" and dev:
+            f["ydev_has_str"] = True
+            if v == "str01":
+                f["ydev_classes_ok"] = False
         elif mal == "n_classes":
             f["n_classes"] = {"one_class": 1, "two_classes": 2, "three_classes": 3, "two_not01": 2}[v]
             f["y_is_01"] = v == "two_classes" and tgt == "continuous"
@@ -844,7 +873,8 @@ class C19(Prop):
                  "ydev_has_nan", "dev_index_matches", "dev_columns_present"]
         f["has_ordinal"] = bool(case["feats"]["o"])
         order2 = ["y_is_01", "y_has_str", "y_all_str", "feature_overlap", "quant_has_str",
-                  "ordinal_unknown_value", "sort_by_ok", "has_ordinal"]
+                  "ordinal_unknown_value", "sort_by_ok", "has_ordinal",
+                  "ydev_given", "dev_index_same_len", "ydev_classes_ok", "ydev_has_str"]
         return ("(mkInput " + " ".join(C.cbool(f[k]) for k in order) + f" {C.cnat(f['n_classes'])} "
                 + " ".join(C.cbool(f[k]) for k in order2) + ")")
 
@@ -891,7 +921,13 @@ class C19(Prop):
                 sigs.append("quant_str_at_transform_not_asserted")
             elif mal == "ordinal_unknown" and cls == "OrdinalDiscretizer" and ep == "fit" and res == "ok":
                 sigs.append("ordinal_unknown_accepted:OrdinalDiscretizer")
+            elif mal == "y_not_series" and var == "none" and case["var"].endswith("@dev"):
+                sigs.append("x_dev_without_y_dev_not_asserted")
+            elif mal == "y_str" and cls == "ContinuousCarver" and case["var"].endswith("@dev"):
+                sigs.append("y_dev_str_not_asserted:ContinuousCarver")
             # repaired mechanisms (a regression shows up under these names)
+            elif mal in ("n_classes", "y_str") and case["var"].endswith("@dev"):
+                sigs.append("y_dev_wrong_classes_not_asserted")
             elif mal == "ordinal_unknown" and var.startswith("absent_") and res == "ok":
                 sigs.append("ordinal_absent_value_accepted_for_non_string_ordinal")
             elif mal == "quant_str" and var == "cell_nan_row" and ep in ("fit", "refit"):
